@@ -33,6 +33,10 @@ KWNAMES = ['a', 'b', 'c']
 # reference model
 
 
+class IterFailed(Exception):
+    pass
+
+
 class PairList:
     def __init__(self):
         self.pairs = []
@@ -128,6 +132,15 @@ def _op():
         # one and the same argument object passed again after the caller changed it (the OMD must not have adopted it)
         st.tuples(st.just('addlist_shared'), _ki, st.lists(_vi, max_size=3)),
         st.tuples(st.just('update_shared'), st.sampled_from(['update', 'update_extend']), _pairs),
+        # a second, LIVE OrderedMultiDict (the donor) that stays in use: it is added to, handed to update / update_extend / |= of the
+        # OMD under test, and changed again afterwards - both objects are compared with their own models after every such step
+        st.tuples(st.just('donor_add'), _ki, _vi),
+        st.tuples(st.just('donor_give'), st.sampled_from(['update', 'update_extend', 'ior']), _pairs),
+        st.tuples(st.just('donor_give'), st.sampled_from(['update', 'update', 'ior']), _pairs),
+        st.tuples(st.just('donor_change'), st.sampled_from(['add', 'addlist', 'poplast', 'popitem', 'set', 'del']), _ki, _vi),
+        # an iterable argument that raises while it is consumed: the call raises, and the mapping is left with none or with a
+        # prefix of the new pairs - never in a state whose reads disagree
+        st.tuples(st.just('failing_iter'), st.sampled_from(['addlist', 'addlist', 'update_extend']), _ki, st.lists(_vi, max_size=3)),
         # many values under one key / many keys (sizes beyond the small-int cache: 257+)
         st.tuples(st.just('addmany'), _ki, st.sampled_from([257, 300]), st.sampled_from(['addlist', 'add', 'update_extend'])),
     ).map(list)
@@ -419,6 +432,9 @@ def run(case):
     olds = []
     shared_list = []
     shared_pairs = []
+    donor = OrderedMultiDict()
+    dm = PairList()
+    donor_used = donor_given = False
     for op, full_check in expand_ops(case, (1,)):
         name = op[0]
         opname = name
@@ -454,6 +470,85 @@ def run(case):
                 else:
                     got = _call(omd.update_extend, shared_pairs)
                     _model_extend(m, 'pairs', pairs, [])
+            elif name == 'donor_add':
+                k, v = KEYS[op[1] % len(KEYS)], VALUES[op[2] % len(VALUES)]
+                got = _call(donor.add, k, v)
+                dm.add(k, v)
+                donor_used = True
+            elif name == 'donor_give':
+                opname = 'donor_give:' + op[1]
+                for k, v in _mk_pairs(op[2]):       # what the donor's owner did with it since the last time
+                    donor.add(k, v)
+                    dm.add(k, v)
+                if op[1] == 'update':
+                    got = _call(omd.update, donor)
+                    _model_update(m, 'omd', list(dm.pairs), [])
+                elif op[1] == 'update_extend':
+                    got = _call(omd.update_extend, donor)
+                    _model_extend(m, 'omd', list(dm.pairs), [])
+                else:
+                    def _ior(o=omd, E=donor):
+                        o2 = o
+                        o2 |= E
+                        if o2 is not o:
+                            raise AssertionError('|= returned another object')
+                    got = _call(_ior)
+                    _model_update(m, 'omd', list(dm.pairs), [])
+                if dm.pairs:
+                    donor_given = True
+                donor_used = True
+            elif name == 'donor_change':
+                k, v = KEYS[op[2] % len(KEYS)], VALUES[op[3] % len(VALUES)]
+                opname = 'donor_change:' + op[1]
+                donor_used = True
+                got = ('ok', None)
+                if op[1] == 'add':
+                    got = _call(donor.add, k, v)
+                    dm.add(k, v)
+                elif op[1] == 'addlist':
+                    got = _call(donor.addlist, k, [v, v])
+                    dm.add(k, v)
+                    dm.add(k, v)
+                elif op[1] == 'set':
+                    got = _call(donor.__setitem__, k, v)
+                    dm.assign(k, v)
+                elif op[1] == 'del':
+                    if dm.has(k):
+                        got = _call(donor.__delitem__, k)
+                        dm.drop(k)
+                elif op[1] == 'poplast':
+                    if dm.has(k):
+                        got = _call(donor.poplast, k)
+                        exp = ('ok', dm.poplast(k))
+                elif dm.pairs:
+                    # popitem: whichever documented reading it follows, the donor is replaced by a fresh one holding what is left
+                    r0 = _call(donor.popitem)
+                    now = _call(lambda: donor.items(multi=True))
+                    if r0[0] != 'ok' or now[0] != 'ok':
+                        return out.fail('c01.return.popitem', 'popitem() on the donor %r -> %r' % (dm.pairs, r0))
+                    dm.pairs = list(now[1])
+                if donor_given:
+                    nontrivial = True
+                    out.label('donor_changed_after_it_was_given')
+            elif name == 'failing_iter':
+                k = KEYS[op[2] % len(KEYS)]
+                vs = [VALUES[i % len(VALUES)] for i in op[3]]
+                opname = 'failing_iter:' + op[1]
+
+                def failing(k=k, vs=vs, pairs=(op[1] != 'addlist')):
+                    for v in vs:
+                        yield (k, v) if pairs else v
+                    raise IterFailed('the iterable failed after %d items' % len(vs))
+                got = _call(omd.addlist, k, failing()) if op[1] == 'addlist' else _call(omd.update_extend, failing())
+                exp = ('exc', 'IterFailed')
+                now = _call(lambda: omd.items(multi=True))
+                for j in range(len(vs) + 1):
+                    if now == ('ok', m.pairs + [(k, v) for v in vs[:j]]):
+                        for v in vs[:j]:
+                            m.add(k, v)
+                        break
+                # (no prefix matches: compare_reads below reports the disagreement against the unchanged model)
+                out.label('iterable_argument_raised')
             elif name == 'addmany':
                 if len(m.pairs) > 1200:
                     continue        # keep long (repeated) histories bounded
@@ -638,6 +733,16 @@ def run(case):
                     name, tuple(op[1:]), got, exp[1], m.pairs))
         if full_check and not compare_reads(omd, m, cls, out, opname):
             return out
+        if donor_given and full_check:
+            # the two objects share nothing: whatever happened to one of them, the donor still reads as its own model says
+            if name.startswith('donor_'):
+                if not compare_reads(donor, dm, OrderedMultiDict, out, 'donor-after-' + opname):
+                    return out
+            else:
+                rd = _call(lambda: (donor.items(multi=True), [donor.getlist(k_) for k_ in dm.keys()], len(donor)))
+                if rd != ('ok', (dm.pairs, [dm.vals(k_) for k_ in dm.keys()], len(dm.keys()))):
+                    return out.fail('c01.donor-changed', 'after %s on the OMD that was updated from it, the donor reads %r; its own history says pairs %r' % (
+                        opname, rd, dm.pairs))
         if not had_multi:
             ks = m.keys()
             if len(ks) < len(m.pairs):
